@@ -1435,7 +1435,11 @@ func (vc *VC) ret(x *ssa.Return, st *State, reach Term) {
 	for _, cl := range vc.fi.fc.Ensures {
 		vc.quantCtx = false
 		t := vc.clauseTerm(vc.fi, cl, vc.params, res, st, vc.entry)
+		vc.lastEv = nil
 		vc.oblige("ensures", fmt.Sprintf("L%d@%s", cl.Line, vc.posStr(x.Pos())), reach, t, x.Pos(), cl.Text)
+		if vc.lastEv != nil {
+			vc.lastEv.RetVals = rv
+		}
 	}
 	vc.frameCheck(st, reach, x.Pos())
 }
